@@ -59,7 +59,10 @@ def cases(draw):
          # each image dataset announces its own mask convention
          "conv_right": draw(st.sampled_from([None, None, None, [1, 0], [2, 1], [0, 255]])),
          "mask_left": draw(gen.sparse_mask(H, W)), "mask_right": draw(gen.sparse_mask(H, W)),
-         "disp": [a, b], "oversize": oversize}
+         "disp": [a, b], "oversize": oversize,
+         # with a validation step the machine also builds the right image's cost volume: judged by the same reference with
+         # the two images exchanged and the interval mirrored
+         "with_right": (not oversize) and draw(st.integers(0, 2)) == 0}
     if grid:
         gmin = draw(st.lists(st.lists(st.integers(a, b), min_size=W, max_size=W), min_size=H, max_size=H))
         gext = draw(st.lists(st.lists(st.integers(0, 2), min_size=W, max_size=W), min_size=H, max_size=H))
@@ -69,6 +72,38 @@ def cases(draw):
 
 
 BANDS = ["r", "g", "b"]
+
+
+def _judge_side(ctx, p, side, cv, img_a, img_b, msk_a, msk_b, dmin, dmax, H, W):
+    """one cost volume of the machine against the reference (img_a: the image the volume belongs to)"""
+    got = cv["cost_volume"].data
+    disps, exp = ref.cost_volume(img_a, img_b, msk_a, msk_b, dmin, dmax, p["meth"], p["w"], p["sub"], 0, 1)
+    if not np.array_equal(cv.coords["disp"].data.astype(float), disps):
+        ctx.violation("C02/disparity-axis-wrong", f"{side}: {cv.coords['disp'].data.tolist()} expected {disps.tolist()}")
+        return None
+    tm = "max" if p["meth"] == "zncc" else "min"
+    if cv.attrs.get("type_measure") != tm:
+        ctx.violation("C02/type-measure-wrong", f"{side}: {cv.attrs.get('type_measure')} for {p['meth']}")
+    nan_g, nan_e = np.isnan(got), np.isnan(exp)
+    tag = f"{side} {p['meth']} w={p['w']} sub={p['sub']} shape={(H, W)} interval={p['disp']} grid={'grid_min' in p}"
+    if (nan_g != nan_e).any():
+        r, c, k = np.argwhere(nan_g != nan_e)[0]
+        sig = "C02/computable-cost-is-nan" if nan_g[r, c, k] else "C02/not-computable-cost-is-finite"
+        ctx.violation(sig, f"cell {(int(r), int(c))} d={disps[k]} got {got[r, c, k]} expected {exp[r, c, k]} {tag}")
+    tol = 1e-5 if p["meth"] == "zncc" else 0.0
+    both = ~nan_g & ~nan_e
+    bad = both & (np.abs(got - exp) > tol)
+    if bad.any():
+        r, c, k = np.argwhere(bad)[0]
+        ctx.violation("C02/cost-value-wrong", f"cell {(int(r), int(c))} d={disps[k]} got {got[r, c, k]} expected {exp[r, c, k]} "
+                                              f"{tag} ({int(bad.sum())} cells)")
+    cmax = cv.attrs.get("cmax")
+    if both.any():
+        m = float(np.nanmax(np.abs(got)))
+        if cmax is None or m > float(cmax) + 1e-5:
+            ctx.violation("C02/cost-exceeds-cmax", f"max |cost| {m} cmax {cmax} {tag}")
+    ctx.judged += int(got.size)
+    return got
 
 
 def body(ctx: Ctx, p: dict) -> None:
@@ -95,8 +130,13 @@ def body(ctx: Ctx, p: dict) -> None:
         Lin, Rin = L, R[perm]
     else:
         Lin, Rin = L[0], R[0]
+    pipe = {"matching_cost": mc}
+    if p.get("with_right"):
+        pipe.update(disparity={"disparity_method": "wta"}, validation={"validation_method": "cross_checking_accurate"})
     try:
-        res = drive.run_pipeline(Lin, Rin, {"matching_cost": mc}, (dmin, dmax), msk_left=ML, msk_right=MR, bands=bands,
+        # with left interval grids the cross-checking step asks for right grids as well: the mirrored ones
+        rdisp = (-dmax, -dmin) if (p.get("with_right") and "grid_min" in p) else None
+        res = drive.run_pipeline(Lin, Rin, pipe, (dmin, dmax), msk_left=ML, msk_right=MR, bands=bands, right_disp=rdisp,
                                  right_bands=right_bands, valid=p["valid"], nodata=p["nodata"], valid_right=vr,
                                  nodata_right=nr)
     except Exception as exc:  # noqa: BLE001
@@ -106,37 +146,21 @@ def body(ctx: Ctx, p: dict) -> None:
             ctx.case(p, nontrivial=False, classes=["oversized-interval"])
             return
         raise
-    cv = res.machine.left_cv
-    got = cv["cost_volume"].data
-    disps, exp = ref.cost_volume(L[p["band"]], R[p["band"]], MLc, MRc, dmin, dmax, p["meth"], p["w"], p["sub"], 0, 1)
-    if not np.array_equal(cv.coords["disp"].data.astype(float), disps):
-        ctx.violation("C02/disparity-axis-wrong", f"{cv.coords['disp'].data.tolist()} expected {disps.tolist()}")
-        return
-    tm = "max" if p["meth"] == "zncc" else "min"
-    if cv.attrs.get("type_measure") != tm:
-        ctx.violation("C02/type-measure-wrong", f"{cv.attrs.get('type_measure')} for {p['meth']}")
-    nan_g, nan_e = np.isnan(got), np.isnan(exp)
-    tag = f"{p['meth']} w={p['w']} sub={p['sub']} shape={(H, W)} interval={p['disp']} grid={'grid_min' in p}"
-    if (nan_g != nan_e).any():
-        r, c, k = np.argwhere(nan_g != nan_e)[0]
-        sig = "C02/computable-cost-is-nan" if nan_g[r, c, k] else "C02/not-computable-cost-is-finite"
-        ctx.violation(sig, f"cell {(int(r), int(c))} d={disps[k]} got {got[r, c, k]} expected {exp[r, c, k]} {tag}")
-    tol = 1e-5 if p["meth"] == "zncc" else 0.0
-    both = ~nan_g & ~nan_e
-    bad = both & (np.abs(got - exp) > tol)
-    if bad.any():
-        r, c, k = np.argwhere(bad)[0]
-        ctx.violation("C02/cost-value-wrong", f"cell {(int(r), int(c))} d={disps[k]} got {got[r, c, k]} expected {exp[r, c, k]} "
-                                              f"{tag} ({int(bad.sum())} cells)")
-    cmax = cv.attrs.get("cmax")
-    if both.any():
-        m = float(np.nanmax(np.abs(got)))
-        if cmax is None or m > float(cmax) + 1e-5:
-            ctx.violation("C02/cost-exceeds-cmax", f"max |cost| {m} cmax {cmax} {tag}")
-    ctx.judged += int(got.size)
+    sides = [("left", res.machine.left_cv, L[p["band"]], R[p["band"]], MLc, MRc, dmin, dmax)]
+    if p.get("with_right"):
+        sides.append(("right", res.machine.right_cv, R[p["band"]], L[p["band"]], MRc, MLc, -dmax, -dmin))
+    for side, cv, img_a, img_b, msk_a, msk_b, lo_, hi_ in sides:
+        got = _judge_side(ctx, p, side, cv, img_a, img_b, msk_a, msk_b, lo_, hi_, H, W)
+        if got is None:
+            return
+        if side == "left":
+            got_left = got
+    got = got_left
     h = p["w"] // 2
     core_g = got[h:H - h, h:W - h]
     classes = [p["meth"]]
+    if p.get("with_right"):
+        classes.append("right-cost-volume")
     if ML is not None or MR is not None:
         classes.append("mask")
     if MR is not None and (vr, nr) != (p["valid"], p["nodata"]):
